@@ -276,10 +276,21 @@ struct CliJob {
     precision: usize,
     individuals: bool,
     what: &'static str,
+    /// samples outside the map carry haploid / triploid genotypes (legal as long as they are not selected)
+    odd_unselected: bool,
 }
 
 fn eval_cli(j: &CliJob, scratch: &Scratch) -> Option<Viol> {
-    let cs = callset(&j.rows, j.m.iter().sum());
+    let mut cs = callset(&j.rows, j.m.iter().sum());
+    if j.odd_unselected {
+        for (r, rec) in cs.records.iter_mut().enumerate() {
+            for (col, pop) in j.map.iter().enumerate() {
+                if pop.is_none() {
+                    rec.gts[col] = ["0", "1/0/1", "1", "0|0|0", "."][(r + col) % 5].to_string();
+                }
+            }
+        }
+    }
     let vcf = to_vcf(&cs).0;
     let shape: Vec<usize> = j.m.iter().map(|x| x + 1).collect();
     let expect = ref_create(&j.rows, &j.map, Some(&j.m));
@@ -300,7 +311,7 @@ fn eval_cli(j: &CliJob, scratch: &Scratch) -> Option<Viol> {
     };
     if let Err(e) = judge(&o, &expect.spectrum, j.precision) {
         return Some((
-            format!("C02|cli|create-project-wrong|{}|{}", j.what, if j.individuals { "-p" } else { "shape" }),
+            format!("C02|cli|create-project-wrong|{}{}|{}", j.what, if j.odd_unselected { ",odd-unselected" } else { "" }, if j.individuals { "-p" } else { "shape" }),
             format!("sfs create -s {sarg} {flag} {arg} --precision {ps} (rows {:?}): {e}", j.rows.iter().map(|r| row_str(r)).take(12).collect::<Vec<_>>()),
             case(),
         ));
@@ -443,20 +454,26 @@ pub fn run(tier: Tier) -> i32 {
         let n = pop_sizes(&map);
         let bx: Vec<usize> = n.iter().map(|x| 2 * x + 1).collect();
         for m in indices(&bx) {
-            cj.push(CliJob { map: map.clone(), rows: rows.clone(), m: m.clone(), precision: 6, individuals: false, what: "12-record" });
+            cj.push(CliJob { map: map.clone(), rows: rows.clone(), m: m.clone(), precision: 6, individuals: false, what: "12-record", odd_unselected: false });
             if m.iter().all(|x| x % 2 == 0) {
-                cj.push(CliJob { map: map.clone(), rows: rows.clone(), m: m.clone(), precision: 6, individuals: true, what: "12-record" });
+                cj.push(CliJob { map: map.clone(), rows: rows.clone(), m: m.clone(), precision: 6, individuals: true, what: "12-record", odd_unselected: false });
             }
             if tier.thorough() || m.iter().sum::<usize>() % 3 == 0 {
                 for r in &rows {
-                    cj.push(CliJob { map: map.clone(), rows: vec![r.clone()], m: m.clone(), precision: 6, individuals: false, what: "one-record" });
+                    cj.push(CliJob { map: map.clone(), rows: vec![r.clone()], m: m.clone(), precision: 6, individuals: false, what: "one-record", odd_unselected: false });
                 }
+            }
+        }
+        // unselected samples with non-diploid genotypes, under projection
+        if map.iter().any(|p| p.is_none()) && map.iter().any(|p| p.is_some()) {
+            for m in indices(&bx) {
+                cj.push(CliJob { map: map.clone(), rows: rows.clone(), m: m.clone(), precision: 6, individuals: false, what: "12-record", odd_unselected: true });
             }
         }
         // precision sweep on the full target
         let full: Vec<usize> = n.iter().map(|x| 2 * x - 1).collect();
         for p in [0usize, 3, 12] {
-            cj.push(CliJob { map: map.clone(), rows: rows.clone(), m: full.clone(), precision: p, individuals: false, what: "precision-sweep" });
+            cj.push(CliJob { map: map.clone(), rows: rows.clone(), m: full.clone(), precision: p, individuals: false, what: "precision-sweep", odd_unselected: false });
         }
     }
     // outputs of more than 1024 and more than 4096 entries (30 samples in 3 populations, 40 in 2)
@@ -466,8 +483,8 @@ pub fn run(tier: Tier) -> i32 {
         let rows_big: Vec<Vec<Cls>> = (0..25usize)
             .map(|r| (0..n).map(|j| { let c = classes[(j * (r + 3) + r) % classes.len()]; if (c == Cls::Missing || c == Cls::Multi) && (r + j) % 4 != 0 { Cls::G0 } else { c } }).collect())
             .collect();
-        cj.push(CliJob { map: map.clone(), rows: rows_big.clone(), m: m.clone(), precision: 6, individuals: false, what: "large-output" });
-        cj.push(CliJob { map, rows: rows_big, m, precision: 6, individuals: true, what: "large-output" });
+        cj.push(CliJob { map: map.clone(), rows: rows_big.clone(), m: m.clone(), precision: 6, individuals: false, what: "large-output", odd_unselected: false });
+        cj.push(CliJob { map, rows: rows_big, m, precision: 6, individuals: true, what: "large-output", odd_unselected: false });
     }
     let res = par_map(cj.len(), |i| eval_cli(&cj[i], &scratch));
     for v in res.into_iter().flatten() {
@@ -477,7 +494,7 @@ pub fn run(tier: Tier) -> i32 {
         name: "cli: sfs create --project-shape / -p".into(),
         evaluations: cj.len() as u64,
         nontrivial: cj.len() as u64,
-        note: "14 maps of 3 samples x every target vector; 12-record call set with missing/multiallelic patterns and single records; -p vs --project-shape byte identity; precision 0/3/6/12; skipped count on stderr; three larger cohorts (30 samples in 3 populations projected to 11x11x9 = 1 089 entries, 70 in 2 to 67x63 = 4 221, 24 in one, 12 in six and 16 in eight populations) with missing and multiallelic genotypes, every printed value compared".into(),
+        note: "14 maps of 3 samples x every target vector (maps with an unselected sample also with haploid / triploid genotypes in that sample); 12-record call set with missing/multiallelic patterns and single records; -p vs --project-shape byte identity; precision 0/3/6/12; skipped count on stderr; three larger cohorts (30 samples in 3 populations projected to 11x11x9 = 1 089 entries, 70 in 2 to 67x63 = 4 221, 24 in one, 12 in six and 16 in eight populations) with missing and multiallelic genotypes, every printed value compared".into(),
         exhaustive: true,
         extra: vec![],
     });
